@@ -51,6 +51,26 @@ func (e *Env) objectIntegrity(v *spec.Version, upTo string) {
 		}
 	}
 	e.C.Obs = kept
+	// "whichever decoder the vector is read with": a higher level's per-token decoder must hand every token to
+	// the level below first, unmodified and whatever came before it (otherwise a token of the levels the
+	// equation reads may never reach its field)
+	before = len(e.C.Obs)
+	inLs := map[*facts.Level]bool{}
+	for _, l := range ls {
+		inLs[l] = true
+	}
+	for _, l := range all {
+		if !inLs[l] {
+			e.modelDecodeOne(l, "decode-one")
+		}
+	}
+	kept = e.C.Obs[:before]
+	for _, o := range e.C.Obs[before:] {
+		if o.Rule == "delegation-first" || o.Rule == "order-independence" {
+			kept = append(kept, o)
+		}
+	}
+	e.C.Obs = kept
 }
 
 func scoreBoiler(e *Env) {
@@ -381,7 +401,7 @@ func c05(e *Env) {
 	if k == nil {
 		return
 	}
-	c.Floor("score-term", 7)
+	c.Floor("score-term", 6)
 	c.Floor("weight", 50)
 	e.guardPanics("score-term", "v2 Environmental reference", func() {
 		e.termV2Env(k, true)
@@ -419,7 +439,11 @@ func (e *Env) termV2Env(k *scoreKit, report bool) {
 			{"adjusted impact == 0", []*ir.Term{valid, ir.NotCond(emptyE), isz, ir.NotCond(emptyT)}, env(tmp(z))},
 			{"adjusted impact != 0", []*ir.Term{valid, ir.NotCond(emptyE), ir.NotCond(isz), ir.NotCond(emptyT)}, env(tmp(nz))},
 		}
-		hits, _ := k.compareScore("score-term", E.Method("Score"), ref)
+		// the same with the two "no environmental group" branches written as the temporal level's own Score() (which
+		// C04 compares with exactly those two terms; valid(E) implies valid(T) by valid-chain)
+		alt := []refLeaf{ref[0], {"no environmental group (temporal score)", []*ir.Term{valid, emptyE}, k.method(E, T, "Score")}}
+		alt = append(alt, ref[3:]...)
+		hits, _ := k.compareScoreAny("score-term", E.Method("Score"), ref, alt)
 		if report {
 			e.reportHits(hits, helper)
 		}
